@@ -11,11 +11,11 @@ Local Open Scope N_scope.
 Record xf := mkXf { x_rd : bool; x_ad : bool; x_strip : bool }.
 
 Definition xform (x : xf) (m : msg) : msg :=
-  mkMsg (m_rcode m) false (m_tc m)
+  mkMsg (m_id m) (m_rcode m) false (m_tc m)
         (if x_rd x then false else m_rd m) (if x_ad x then false else m_ad m) (m_q m)
         (if x_strip x then filter keep_rr (m_an m) else m_an m)
         (if x_strip x then filter keep_rr (m_ns m) else m_ns m)
-        (if x_strip x then filter keep_rr (m_ar m) else m_ar m).
+        (if x_strip x then filter keep_rr (m_ar m) else m_ar m) (m_broken m).
 
 Definition map_resp (f : msg -> msg) (r : resp) : resp :=
   match r with RMsg m => RMsg (f m) | RErr e => RErr e end.
@@ -52,7 +52,7 @@ Proof. destruct m; cbn; intros ->; reflexivity. Qed.
 
 (* ---------- validity never fails on a transformed message if it did not on the
    original: success depends only on (tc, rcode, question) ------------------------ *)
-Definition shape (m : msg) := (m_tc m, m_rcode m, m_q m).
+Definition shape (m : msg) := (m_tc m, m_rcode m, m_q m, m_broken m).
 
 Lemma classify_ok_shape m m' : m_q m = m_q m' ->
   (exists c, classify_no_error m = Ok c) -> exists c, classify_no_error m' = Ok c.
@@ -66,8 +66,9 @@ Qed.
 Lemma validity_ok_shape cfg m m' : shape m = shape m' ->
   (exists v, validity cfg (RMsg m) = Ok v) -> exists v, validity cfg (RMsg m') = Ok v.
 Proof.
-  unfold shape; intros [= Htc Hrc Hq]. unfold validity; rewrite <- Htc.
+  unfold shape; intros [= Htc Hrc Hq Hb]. unfold validity; rewrite <- Htc, <- Hb.
   destruct (m_tc m && negb (c_trunc cfg)); [eauto|].
+  destruct (m_broken m); [intros [v H]; discriminate|].
   unfold class_cap; rewrite <- Hrc.
   destruct (m_rcode m) as [|p].
   - intros [v H].
@@ -91,6 +92,18 @@ Definition compat (k0 k : key) (x : xf) (u0 : resp) : Prop :=
   (k_addo k0 = AdDo_Do -> k_addo k <> AdDo_Do -> x_strip x = true) /\
   (k_addo k = AdDo_None -> k_addo k0 <> AdDo_None -> resp_ad (xform_resp x u0) = false).
 
+Definition same_question (k0 k : key) : Prop :=
+  k_name k0 = k_name k /\ k_class k0 = k_class k /\ k_type k0 = k_type k.
+
+(* the upstream request carried at least the flags of the served one:
+   CD equal; RD=1 only from RD=1; DO only from DO; AD only from AD or DO *)
+Definition flags_compatible (k0 k : key) : Prop :=
+  k_cd k0 = k_cd k /\ (k_rd k = true -> k_rd k0 = true) /\
+  (k_addo k = AdDo_Do -> k_addo k0 = AdDo_Do) /\ (k_addo k = AdDo_Ad -> k_addo k0 <> AdDo_None).
+
+Lemma compat_question k0 k x u : compat k0 k x u -> same_question k0 k /\ flags_compatible k0 k.
+Proof. unfold compat, same_question, flags_compatible; tauto. Qed.
+
 Definition ulog := list (key * N * resp).
 
 Definition prov (cfg : config) (L : ulog) (k : key) (v : value) : Prop :=
@@ -108,31 +121,54 @@ Lemma compat_refl k u : compat k k xid u.
 Proof. unfold compat, xid; cbn; repeat split; try congruence; try discriminate. Qed.
 
 (* ---------- update_message / cache_insert ----------------------------------------------- *)
-Lemma update_message_spec cfg v tst f v' :
+Lemma update_message_spec cfg v tst f g v' :
   validity cfg (v_resp v) = Ok (v_valid v) ->
-  (forall m, tst m = false -> f m = m) ->
+  (forall m m', f m = Ok m' -> m' = g m) ->
+  (forall m, tst m = false -> g m = m) ->
   update_message cfg v tst f = Ok v' ->
-  v_created v' = v_created v /\ v_resp v' = map_resp f (v_resp v) /\
+  v_created v' = v_created v /\ v_resp v' = map_resp g (v_resp v) /\
   validity cfg (v_resp v') = Ok (v_valid v').
 Proof.
-  intros Hv Hid. unfold update_message.
+  intros Hv Hf Hid. unfold update_message.
   destruct (v_resp v) as [m|e] eqn:R.
   - destruct (tst m) eqn:T.
-    + destruct (validity cfg (RMsg (f m))) as [val| | |] eqn:V; cbn [bind]; try discriminate.
+    + destruct (f m) as [m'| | |] eqn:F; cbn [bind]; try discriminate.
+      rewrite (Hf _ _ F).
+      destruct (validity cfg (RMsg (g m))) as [val| | |] eqn:V; cbn [bind]; try discriminate.
       intros [= <-]; cbn [v_created v_valid v_resp map_resp]. auto.
     + intros [= <-]. rewrite R; cbn [map_resp]. rewrite (Hid _ T). auto.
   - intros [= <-]. rewrite R; cbn [map_resp]. auto.
 Qed.
 
-Lemma update_message_total cfg v tst f :
+Lemma pure_spec g m m' : pure g m = Ok m' -> m' = g m.
+Proof. unfold pure; intros [= <-]; reflexivity. Qed.
+
+Lemma strip_spec ad m m' : remove_dnssec_o ad m = Ok m' -> m' = remove_dnssec ad m.
+Proof. unfold remove_dnssec_o; destruct (has_bad m); [discriminate|intros [= <-]; reflexivity]. Qed.
+
+(* a header edit cannot fail on a stored value *)
+Lemma update_message_pure_total cfg v tst g :
   (exists val, validity cfg (v_resp v) = Ok val) ->
-  (forall m, shape (f m) = shape m) ->
-  exists v', update_message cfg v tst f = Ok v'.
+  (forall m, shape (g m) = shape m) ->
+  exists v', update_message cfg v tst (pure g) = Ok v'.
 Proof.
-  intros Hv Hs. unfold update_message.
+  intros Hv Hs. unfold update_message, pure.
   destruct (v_resp v) as [m|e]; [|eauto].
-  destruct (tst m); [|eauto].
-  destruct (validity_ok_shape cfg m (f m) (eq_sym (Hs m)) Hv) as [val ->]. cbn [bind]. eauto.
+  destruct (tst m); [|eauto]. cbn [bind].
+  destruct (validity_ok_shape cfg m (g m) (eq_sym (Hs m)) Hv) as [val ->]. cbn [bind]. eauto.
+Qed.
+
+(* stripping can fail, and then only because of an unparsable record *)
+Lemma update_message_strip_cases cfg v ad :
+  (exists val, validity cfg (v_resp v) = Ok val) ->
+  (exists v', update_message cfg v (fun _ => true) (remove_dnssec_o ad) = Ok v') \/
+  (update_message cfg v (fun _ => true) (remove_dnssec_o ad) = Err parse_error /\
+   resp_has_bad (v_resp v) = true).
+Proof.
+  intros Hv. unfold update_message, remove_dnssec_o.
+  destruct (v_resp v) as [m|e]; [|left; eauto]. cbn [resp_has_bad].
+  destruct (has_bad m); cbn [bind]; [right; auto|]. left.
+  destruct (validity_ok_shape cfg m (remove_dnssec ad m) eq_refl Hv) as [val ->]. cbn [bind]. eauto.
 Qed.
 
 Lemma cache_insert_spec cfg k v c c' :
@@ -144,9 +180,9 @@ Lemma cache_insert_spec cfg k v c c' :
 Proof.
   intros Hv. unfold cache_insert.
   destruct (insert_skips_zero && (v_valid v =? 0)); [intros [= <-]; now left|].
-  destruct (update_message cfg v m_aa (msg_set_aa false)) as [v'| | |] eqn:U; cbn [bind]; try discriminate.
-  intros [= <-]. right. exists v'. split; [reflexivity|].
-  apply (update_message_spec cfg v m_aa (msg_set_aa false) v' Hv); [|exact U].
+  destruct (update_message_pure_total cfg v m_aa (msg_set_aa false)) as [v' U]; [eauto|reflexivity|].
+  rewrite U. intros [= <-]. right. exists v'. split; [reflexivity|].
+  apply (update_message_spec cfg v m_aa (pure (msg_set_aa false)) (msg_set_aa false) v' Hv); [apply pure_spec| |exact U].
   intros m; apply set_aa_noop.
 Qed.
 
@@ -155,8 +191,7 @@ Lemma cache_insert_total cfg k v c :
 Proof.
   intros Hv. unfold cache_insert.
   destruct (insert_skips_zero && (v_valid v =? 0)); [eauto|].
-  destruct (update_message_total cfg v m_aa (msg_set_aa false) Hv) as [v' ->]; [reflexivity|].
-  cbn [bind]. eauto.
+  destruct (update_message_pure_total cfg v m_aa (msg_set_aa false) Hv) as [v' ->]; [reflexivity|]. eauto.
 Qed.
 
 Lemma map_set_aa_xform x u : map_resp (msg_set_aa false) (xform_resp x u) = xform_resp x u.
@@ -245,135 +280,184 @@ Proof.
 Qed.
 
 (* ---------- the cascade ------------------------------------------------------------------------- *)
-Definition lookup_post cfg L k (r : cache * option value) : Prop :=
-  invC cfg L (fst r) /\ forall v, snd r = Some v -> prov cfg L k v.
+Lemma existsb_filter_bad l : existsb r_bad (filter keep_rr l) = true -> existsb r_bad l = true.
+Proof.
+  intros H. apply existsb_exists in H. destruct H as (r & Hin & Hb).
+  apply existsb_exists. exists r. apply filter_In in Hin. tauto.
+Qed.
+
+Lemma has_bad_xform x m : has_bad (xform x m) = true -> has_bad m = true.
+Proof.
+  unfold has_bad; cbn [xform m_an m_ns m_ar]. rewrite !orb_true_iff.
+  destruct (x_strip x); [|tauto].
+  intros [[H|H]|H]; apply existsb_filter_bad in H; tauto.
+Qed.
+
+(* a failed lookup: only without the fix, only a parse error, only because a
+   logged upstream message for the same question and at least these flags
+   holds a record that does not parse; nothing is said about its age *)
+Definition fail_post (L : ulog) (k : key) (e : N) : Prop :=
+  strip_failure_is_miss = false /\ e = parse_error /\
+  exists k0 t0 m0, In (k0, t0, RMsg m0) L /\ same_question k0 k /\ flags_compatible k0 k /\
+                   has_bad m0 = true.
+
+Definition lookup_post cfg L k (r : cache * lres) : Prop :=
+  invC cfg L (fst r) /\
+  match snd r with
+  | LSome v => prov cfg L k v
+  | LNone => True
+  | LFail e => fail_post L k e
+  end.
 
 Lemma prov_valid cfg L k v : prov cfg L k v -> validity cfg (v_resp v) = Ok (v_valid v).
 Proof. intros (k0 & t0 & u0 & x & _ & _ & _ & _ & H); exact H. Qed.
+Lemma prov_valid_ex cfg L k v : prov cfg L k v -> exists val, validity cfg (v_resp v) = Ok val.
+Proof. intros P; eexists; eapply prov_valid; exact P. Qed.
 
 Lemma lookup_ad_inv cfg L k c r :
   invC cfg L c -> cache_lookup_ad cfg k c = Ok r -> lookup_post cfg L k r.
 Proof.
   intros I. unfold cache_lookup_ad.
   destruct (cget k c) as [v|] eqn:G.
-  - intros [= <-]. split; [exact I|]. intros v0 [= <-]. apply I, cget_In, G.
-  - destruct (addo_ad (k_addo k)) eqn:A; [intros [= <-]; split; [exact I|discriminate]|].
+  - intros [= <-]. split; [exact I|]. cbn. apply I, cget_In, G.
+  - destruct (addo_ad (k_addo k)) eqn:A; [intros [= <-]; split; [exact I|exact Logic.I]|].
     rewrite gen_alt_ad, gen_ad_fix.
-    destruct (cget (key_set_addo k AdDo_Ad) c) as [v|] eqn:G2; [|intros [= <-]; split; [exact I|discriminate]].
+    destruct (cget (key_set_addo k AdDo_Ad) c) as [v|] eqn:G2; [|intros [= <-]; split; [exact I|exact Logic.I]].
     pose proof (I _ _ (cget_In _ _ _ G2)) as P.
-    destruct (update_message cfg v m_ad (msg_set_ad false)) as [v'| | |] eqn:U; cbn [bind]; try discriminate.
+    destruct (update_message_pure_total cfg v m_ad (msg_set_ad false) (prov_valid_ex _ _ _ _ P)) as [v' U];
+      [reflexivity|].
+    rewrite U; cbn [try_].
     destruct (cache_insert cfg k v' c) as [c'| | |] eqn:CI; cbn [bind]; try discriminate.
     intros [= <-].
-    destruct (update_message_spec cfg v m_ad (msg_set_ad false) v' (prov_valid _ _ _ _ P)
-                (fun m => set_ad_noop m) U) as (C' & R' & V').
+    destruct (update_message_spec cfg v m_ad _ (msg_set_ad false) v' (prov_valid _ _ _ _ P)
+                (pure_spec _) (fun m => set_ad_noop m) U) as (C' & R' & V').
     assert (P' : prov cfg L k v').
     { apply (prov_ad_step cfg L k v v'); try assumption. destruct (k_addo k); try discriminate; reflexivity. }
-    split; cbn [fst snd]; [eapply cache_insert_inv; eassumption|intros v0 [= <-]; exact P'].
+    split; cbn [fst snd]; [eapply cache_insert_inv; eassumption|exact P'].
 Qed.
 
 Lemma lookup_do_ad_inv cfg L k c r :
   invC cfg L c -> cache_lookup_do_ad cfg k c = Ok r -> lookup_post cfg L k r.
 Proof.
   intros I. unfold cache_lookup_do_ad.
-  destruct (cache_lookup_ad cfg k c) as [[c1 ov]| | |] eqn:LA; cbn [bind]; try discriminate.
+  destruct (cache_lookup_ad cfg k c) as [[c1 res]| | |] eqn:LA; cbn [bind]; try discriminate.
   destruct (lookup_ad_inv cfg L k c _ I LA) as [I1 P1]; cbn [fst snd] in I1, P1.
-  destruct ov as [v|]; [intros [= <-]; split; assumption|].
-  destruct (addo_do (k_addo k)) eqn:D; [intros [= <-]; split; [exact I1|discriminate]|].
-  destruct (is_dnssec (k_type k)) eqn:Q; [intros [= <-]; split; [exact I1|discriminate]|].
+  destruct res as [v| |e]; [intros [= <-]; split; assumption| |intros [= <-]; split; assumption].
+  destruct (addo_do (k_addo k)) eqn:D; [intros [= <-]; split; [exact I1|exact Logic.I]|].
+  destruct (is_dnssec (k_type k)) eqn:Q; [intros [= <-]; split; [exact I1|exact Logic.I]|].
   rewrite gen_alt_do.
-  destruct (cget (key_set_addo k AdDo_Do) c1) as [v|] eqn:G2; [|intros [= <-]; split; [exact I1|discriminate]].
+  destruct (cget (key_set_addo k AdDo_Do) c1) as [v|] eqn:G2; [|intros [= <-]; split; [exact I1|exact Logic.I]].
   pose proof (I1 _ _ (cget_In _ _ _ G2)) as P.
-  destruct (update_message cfg v (fun _ => true) (remove_dnssec (addo_ad (k_addo k)))) as [v'| | |] eqn:U;
-    cbn [bind]; try discriminate.
-  destruct (cache_insert cfg k v' c1) as [c2| | |] eqn:CI; cbn [bind]; try discriminate.
-  intros [= <-].
-  destruct (update_message_spec cfg v _ _ v' (prov_valid _ _ _ _ P) (fun m (H : true = false) =>
-             False_ind _ (diff_true_false H)) U) as (C' & R' & V').
-  assert (P' : prov cfg L k v').
-  { apply (prov_do_step cfg L k v v'); try assumption. destruct (k_addo k); try discriminate; congruence. }
-  split; cbn [fst snd]; [eapply cache_insert_inv; eassumption|intros v0 [= <-]; exact P'].
+  assert (Hk : k_addo k <> AdDo_Do) by (destruct (k_addo k); try discriminate; congruence).
+  destruct (update_message_strip_cases cfg v (addo_ad (k_addo k)) (prov_valid_ex _ _ _ _ P))
+    as [[v' U]|[U B]]; rewrite U.
+  - destruct (cache_insert cfg k v' c1) as [c2| | |] eqn:CI; cbn [bind]; try discriminate.
+    intros [= <-].
+    destruct (update_message_spec cfg v _ _ (remove_dnssec (addo_ad (k_addo k))) v' (prov_valid _ _ _ _ P)
+               (strip_spec _) (fun m (H : true = false) => False_ind _ (diff_true_false H)) U) as (C' & R' & V').
+    assert (P' : prov cfg L k v') by (apply (prov_do_step cfg L k v v'); assumption).
+    split; cbn [fst snd]; [eapply cache_insert_inv; eassumption|exact P'].
+  - destruct strip_failure_is_miss eqn:Fl; intros [= <-]; (split; cbn [fst snd]; [exact I1|]); [exact Logic.I|].
+    split; [exact Fl|]. split; [reflexivity|].
+    destruct P as (k0 & t0 & u0 & x & Hin & _ & Hr & Hc & _).
+    rewrite Hr in B. destruct u0 as [m0|e0]; cbn in B; [|discriminate].
+    exists k0, t0, m0. split; [exact Hin|].
+    destruct (compat_question _ _ _ _ Hc) as [(Q1 & Q2 & Q3) (F1 & F2 & F3 & F4)].
+    cbn [key_set_addo k_name k_class k_type k_cd k_rd k_addo] in *.
+    specialize (F3 eq_refl).
+    split; [repeat split; assumption|]. split; [|apply (has_bad_xform x); exact B].
+    repeat split; try assumption; [congruence|intros _; rewrite F3; discriminate].
 Qed.
 
-Lemma key_set_rd_same k : k_rd k = true -> key_set_rd k true = k.
-Proof. destruct k; cbn; intros ->; reflexivity. Qed.
+Lemma fail_post_rd L k e : k_rd k = false -> fail_post L (key_set_rd k true) e -> fail_post L k e.
+Proof.
+  intros Hr (F & E & k0 & t0 & m0 & Hin & (Q1 & Q2 & Q3) & (F1 & F2 & F3 & F4) & B).
+  cbn [key_set_rd k_name k_class k_type k_cd k_rd k_addo] in *.
+  split; [exact F|]. split; [exact E|]. exists k0, t0, m0.
+  repeat split; try assumption. congruence.
+Qed.
 
 Lemma lookup_rd_do_ad_inv cfg L k c r :
   invC cfg L c -> cache_lookup_rd_do_ad cfg k c = Ok r -> lookup_post cfg L k r.
 Proof.
   intros I. unfold cache_lookup_rd_do_ad.
-  destruct (cache_lookup_do_ad cfg k c) as [[c1 ov]| | |] eqn:LA; cbn [bind]; try discriminate.
+  destruct (cache_lookup_do_ad cfg k c) as [[c1 res]| | |] eqn:LA; cbn [bind]; try discriminate.
   destruct (lookup_do_ad_inv cfg L k c _ I LA) as [I1 P1]; cbn [fst snd] in I1, P1.
-  destruct ov as [v|]; [intros [= <-]; split; assumption|].
-  destruct (k_rd k) eqn:D; [intros [= <-]; split; [exact I1|discriminate]|].
+  destruct res as [v| |e]; [intros [= <-]; split; assumption| |intros [= <-]; split; assumption].
+  destruct (k_rd k) eqn:D; [intros [= <-]; split; [exact I1|exact Logic.I]|].
   rewrite gen_alt_rd, gen_rd_fix.
-  destruct (cache_lookup_do_ad cfg (key_set_rd k true) c1) as [[c2 ov2]| | |] eqn:LB; cbn [bind]; try discriminate.
+  destruct (cache_lookup_do_ad cfg (key_set_rd k true) c1) as [[c2 res2]| | |] eqn:LB; cbn [bind]; try discriminate.
   destruct (lookup_do_ad_inv cfg L _ c1 _ I1 LB) as [I2 P2]; cbn [fst snd] in I2, P2.
-  destruct ov2 as [v|]; [|intros [= <-]; split; [exact I2|discriminate]].
-  pose proof (P2 _ eq_refl) as P.
-  destruct (update_message cfg v (fun _ => true) (msg_set_rd false)) as [v'| | |] eqn:U; cbn [bind]; try discriminate.
+  destruct res2 as [v| |e]; [|intros [= <-]; split; [exact I2|exact Logic.I]
+                            |intros [= <-]; split; [exact I2|apply fail_post_rd; assumption]].
+  destruct (update_message_pure_total cfg v (fun _ => true) (msg_set_rd false) (prov_valid_ex _ _ _ _ P2)) as [v' U];
+    [reflexivity|].
+  rewrite U; cbn [try_].
   destruct (cache_insert cfg k v' c2) as [c3| | |] eqn:CI; cbn [bind]; try discriminate.
   intros [= <-].
-  destruct (update_message_spec cfg v _ _ v' (prov_valid _ _ _ _ P) (fun m (H : true = false) =>
-             False_ind _ (diff_true_false H)) U) as (C' & R' & V').
+  destruct (update_message_spec cfg v _ _ (msg_set_rd false) v' (prov_valid _ _ _ _ P2)
+             (pure_spec _) (fun m (H : true = false) => False_ind _ (diff_true_false H)) U) as (C' & R' & V').
   assert (P' : prov cfg L k v') by (apply (prov_rd_step cfg L k v v'); assumption).
-  split; cbn [fst snd]; [eapply cache_insert_inv; eassumption|intros v0 [= <-]; exact P'].
+  split; cbn [fst snd]; [eapply cache_insert_inv; eassumption|exact P'].
+Qed.
+
+(* after the fix a lookup never fails *)
+Lemma lookup_never_fails cfg L k c c' e :
+  strip_failure_is_miss = true -> invC cfg L c -> cache_lookup cfg k c <> Ok (c', LFail e).
+Proof.
+  intros F I H. destruct (lookup_rd_do_ad_inv cfg L k c _ I H) as [_ (F' & _)]. congruence.
 Qed.
 
 (* ---------- totality of the cascade (no panic) ---------------------------------------------------- *)
-Lemma prov_valid_ex cfg L k v : prov cfg L k v -> exists val, validity cfg (v_resp v) = Ok val.
-Proof. intros P; eexists; eapply prov_valid; exact P. Qed.
-
 Lemma lookup_ad_total cfg L k c : invC cfg L c -> exists r, cache_lookup_ad cfg k c = Ok r.
 Proof.
   intros I. unfold cache_lookup_ad.
   destruct (cget k c); [eauto|]. destruct (addo_ad (k_addo k)); [eauto|].
-  rewrite gen_alt_ad.
+  rewrite gen_alt_ad, gen_ad_fix.
   destruct (cget (key_set_addo k AdDo_Ad) c) as [v|] eqn:G; [|eauto].
   pose proof (I _ _ (cget_In _ _ _ G)) as P.
-  destruct (update_message_total cfg v m_ad (msg_set_ad ad_fix_sets) (prov_valid_ex _ _ _ _ P)) as [v' U];
+  destruct (update_message_pure_total cfg v m_ad (msg_set_ad false) (prov_valid_ex _ _ _ _ P)) as [v' U];
     [reflexivity|].
-  rewrite U; cbn [bind].
+  rewrite U; cbn [try_].
   assert (Hv' : exists val, validity cfg (v_resp v') = Ok val).
-  { rewrite gen_ad_fix in U.
-    destruct (update_message_spec cfg v _ _ v' (prov_valid _ _ _ _ P) (fun m => set_ad_noop m) U) as (_ & _ & V').
-    eauto. }
+  { destruct (update_message_spec cfg v _ _ (msg_set_ad false) v' (prov_valid _ _ _ _ P) (pure_spec _)
+                (fun m => set_ad_noop m) U) as (_ & _ & V'). eauto. }
   destruct (cache_insert_total cfg k v' c Hv') as [c' ->]. cbn [bind]. eauto.
 Qed.
 
 Lemma lookup_do_ad_total cfg L k c : invC cfg L c -> exists r, cache_lookup_do_ad cfg k c = Ok r.
 Proof.
   intros I. unfold cache_lookup_do_ad.
-  destruct (lookup_ad_total cfg L k c I) as [[c1 ov] LA]. rewrite LA; cbn [bind].
+  destruct (lookup_ad_total cfg L k c I) as [[c1 res] LA]. rewrite LA; cbn [bind].
   destruct (lookup_ad_inv cfg L k c _ I LA) as [I1 _]; cbn [fst] in I1.
-  destruct ov; [eauto|]. destruct (addo_do (k_addo k)); [eauto|]. destruct (is_dnssec (k_type k)); [eauto|].
+  destruct res; [eauto| |eauto]. destruct (addo_do (k_addo k)); [eauto|]. destruct (is_dnssec (k_type k)); [eauto|].
   rewrite gen_alt_do.
   destruct (cget (key_set_addo k AdDo_Do) c1) as [v|] eqn:G; [|eauto].
   pose proof (I1 _ _ (cget_In _ _ _ G)) as P.
-  destruct (update_message_total cfg v (fun _ => true) (remove_dnssec (addo_ad (k_addo k)))
-              (prov_valid_ex _ _ _ _ P)) as [v' U]; [reflexivity|].
-  rewrite U; cbn [bind].
+  destruct (update_message_strip_cases cfg v (addo_ad (k_addo k)) (prov_valid_ex _ _ _ _ P))
+    as [[v' U]|[U B]]; rewrite U; [|destruct strip_failure_is_miss; eauto].
   assert (Hv' : exists val, validity cfg (v_resp v') = Ok val).
-  { destruct (update_message_spec cfg v _ _ v' (prov_valid _ _ _ _ P) (fun m (H : true = false) =>
-               False_ind _ (diff_true_false H)) U) as (_ & _ & V'). eauto. }
+  { destruct (update_message_spec cfg v _ _ (remove_dnssec (addo_ad (k_addo k))) v' (prov_valid _ _ _ _ P)
+               (strip_spec _) (fun m (H : true = false) => False_ind _ (diff_true_false H)) U) as (_ & _ & V'). eauto. }
   destruct (cache_insert_total cfg k v' c1 Hv') as [c' ->]. cbn [bind]. eauto.
 Qed.
 
 Lemma lookup_total cfg L k c : invC cfg L c -> exists r, cache_lookup cfg k c = Ok r.
 Proof.
   intros I. unfold cache_lookup, cache_lookup_rd_do_ad.
-  destruct (lookup_do_ad_total cfg L k c I) as [[c1 ov] LA]. rewrite LA; cbn [bind].
+  destruct (lookup_do_ad_total cfg L k c I) as [[c1 res] LA]. rewrite LA; cbn [bind].
   destruct (lookup_do_ad_inv cfg L k c _ I LA) as [I1 _]; cbn [fst] in I1.
-  destruct ov; [eauto|]. destruct (k_rd k); [eauto|].
-  destruct (lookup_do_ad_total cfg L (key_set_rd k alt_rd) c1 I1) as [[c2 ov2] LB]. rewrite LB; cbn [bind].
+  destruct res; [eauto| |eauto]. destruct (k_rd k); [eauto|].
+  destruct (lookup_do_ad_total cfg L (key_set_rd k alt_rd) c1 I1) as [[c2 res2] LB]. rewrite LB; cbn [bind].
   destruct (lookup_do_ad_inv cfg L _ c1 _ I1 LB) as [I2 P2]; cbn [fst snd] in I2, P2.
-  destruct ov2 as [v|]; [|eauto].
-  pose proof (P2 _ eq_refl) as P.
-  destruct (update_message_total cfg v (fun _ => true) (msg_set_rd rd_fix_sets)
-              (prov_valid_ex _ _ _ _ P)) as [v' U]; [reflexivity|].
-  rewrite U; cbn [bind].
+  destruct res2 as [v| |e]; [|eauto|eauto].
+  rewrite gen_rd_fix.
+  destruct (update_message_pure_total cfg v (fun _ => true) (msg_set_rd false) (prov_valid_ex _ _ _ _ P2)) as [v' U];
+    [reflexivity|].
+  rewrite U; cbn [try_].
   assert (Hv' : exists val, validity cfg (v_resp v') = Ok val).
-  { destruct (update_message_spec cfg v _ _ v' (prov_valid _ _ _ _ P) (fun m (H : true = false) =>
-               False_ind _ (diff_true_false H)) U) as (_ & _ & V'). eauto. }
+  { destruct (update_message_spec cfg v _ _ (msg_set_rd false) v' (prov_valid _ _ _ _ P2) (pure_spec _)
+               (fun m (H : true = false) => False_ind _ (diff_true_false H)) U) as (_ & _ & V'). eauto. }
   destruct (cache_insert_total cfg k v' c2 Hv') as [c' ->]. cbn [bind]. eauto.
 Qed.
 
@@ -387,14 +471,22 @@ Lemma step_inv cfg st ev st' o : inv cfg st -> step cfg st ev = Ok (st', o) -> i
 Proof.
   intros I. destruct ev as [k op now delay u|n]; cbn [step].
   - destruct (negb ((op =? 0) && (k_class k =? class_in))); [intros [= <- _]; exact I|].
-    destruct (cache_lookup cfg k (s_cache st)) as [[c1 ov]| | |] eqn:LK; cbn [bind]; try discriminate.
+    destruct (cache_lookup cfg k (s_cache st)) as [[c1 res]| | |] eqn:LK; cbn [bind]; try discriminate.
     destruct (lookup_rd_do_ad_inv cfg _ k _ _ I LK) as [I1 _]; cbn [fst] in I1.
-    destruct (match ov with Some v => get_response v now | None => None end) as [served|].
-    + destruct served as [s| | |]; cbn [bind]; try discriminate. intros [= <- _]. exact I1.
-    + destruct (validity cfg u) as [val| | |] eqn:V; cbn [bind]; try discriminate.
-      destruct (cache_insert cfg k (mkValue (now + delay) val u) c1) as [c2| | |] eqn:CI; cbn [bind]; try discriminate.
-      intros [= <- _]. unfold inv; cbn [s_cache s_log].
-      eapply cache_insert_fresh; eassumption.
+    assert (Hfwd : match validity cfg u with
+       | Ok val => do c2 <- cache_insert cfg k (mkValue (now + delay) val u) c1;
+                   Ok (mkState c2 ((k, now + delay, u) :: s_log st), OForwarded)
+       | Err e => Ok (mkState c1 ((k, now + delay, u) :: s_log st), OFwdErr e)
+       | Panic p => Panic p | OutOfFuel => OutOfFuel end = Ok (st', o) -> inv cfg st').
+    { destruct (validity cfg u) as [val|e| |] eqn:V; try discriminate.
+      - destruct (cache_insert cfg k (mkValue (now + delay) val u) c1) as [c2| | |] eqn:CI; cbn [bind]; try discriminate.
+        intros [= <- _]. unfold inv; cbn [s_cache s_log]. eapply cache_insert_fresh; eassumption.
+      - intros [= <- _]. unfold inv; cbn [s_cache s_log]. intros k1 v1 H1. apply prov_mono. auto. }
+    destruct res as [v| |e].
+    + destruct (get_response v now) as [[s|e| |]|]; try discriminate; try exact Hfwd;
+        intros [= <- _]; exact I1.
+    + exact Hfwd.
+    + intros [= <- _]; exact I1.
   - intros [= <- _]. unfold inv; cbn [s_cache s_log]. intros k v H. apply I. eapply evict_In; exact H.
 Qed.
 
@@ -408,26 +500,40 @@ Proof.
 Qed.
 
 (* the ghost log is the history: each entry is a forwarded QUERY/IN request of it *)
+Definition forwarded (o : obs) : Prop := o = OForwarded \/ exists e, o = OFwdErr e.
+
 Definition logged (evs : list event) (os : list obs) (e : key * N * resp) : Prop :=
   exists i now delay,
     nth_error evs i = Some (EQuery (fst (fst e)) 0 now delay (snd e)) /\
-    snd (fst e) = now + delay /\ nth_error os i = Some OForwarded.
+    snd (fst e) = now + delay /\ exists o, nth_error os i = Some o /\ forwarded o.
 
 Lemma step_log cfg st ev st' o e :
   step cfg st ev = Ok (st', o) -> In e (s_log st') ->
-  In e (s_log st) \/ (o = OForwarded /\ exists now delay,
+  In e (s_log st) \/ (forwarded o /\ exists now delay,
      ev = EQuery (fst (fst e)) 0 now delay (snd e) /\ snd (fst e) = now + delay).
 Proof.
   destruct ev as [k op now delay u|n]; cbn [step].
   - destruct (negb ((op =? 0) && (k_class k =? class_in))) eqn:B; [intros [= <- _]; now left|].
-    destruct (cache_lookup cfg k (s_cache st)) as [[c1 ov]| | |]; cbn [bind]; try discriminate.
-    destruct (match ov with Some v => get_response v now | None => None end) as [served|].
-    + destruct served as [s| | |]; cbn [bind]; try discriminate. intros [= <- _]; now left.
-    + destruct (validity cfg u) as [val| | |]; cbn [bind]; try discriminate.
-      destruct (cache_insert cfg k _ c1) as [c2| | |]; cbn [bind]; try discriminate.
-      intros [= <- <-]; cbn [s_log]. intros [<-|H]; [right|now left].
-      split; [reflexivity|]. exists now, delay; cbn [fst snd]. split; [|reflexivity].
-      apply negb_false_iff, andb_true_iff in B. destruct B as [B _]. apply N.eqb_eq in B. subst; reflexivity.
+    apply negb_false_iff, andb_true_iff in B. destruct B as [B _]. apply N.eqb_eq in B. subst op.
+    destruct (cache_lookup cfg k (s_cache st)) as [[c1 res]| | |]; cbn [bind]; try discriminate.
+    assert (Hfwd : match validity cfg u with
+       | Ok val => do c2 <- cache_insert cfg k (mkValue (now + delay) val u) c1;
+                   Ok (mkState c2 ((k, now + delay, u) :: s_log st), OForwarded)
+       | Err e => Ok (mkState c1 ((k, now + delay, u) :: s_log st), OFwdErr e)
+       | Panic p => Panic p | OutOfFuel => OutOfFuel end = Ok (st', o) -> In e (s_log st') ->
+       In e (s_log st) \/ (forwarded o /\ exists now0 delay0,
+         EQuery k 0 now delay u = EQuery (fst (fst e)) 0 now0 delay0 (snd e) /\ snd (fst e) = now0 + delay0)).
+    { destruct (validity cfg u) as [val|e0| |]; try discriminate.
+      - destruct (cache_insert cfg k _ c1) as [c2| | |]; cbn [bind]; try discriminate.
+        intros [= <- <-]; cbn [s_log]. intros [<-|H]; [right|now left].
+        split; [left; reflexivity|]. exists now, delay; cbn [fst snd]. auto.
+      - intros [= <- <-]; cbn [s_log]. intros [<-|H]; [right|now left].
+        split; [right; eauto|]. exists now, delay; cbn [fst snd]. auto. }
+    destruct res as [v| |e0].
+    + destruct (get_response v now) as [[s|e0| |]|]; try discriminate; try exact Hfwd;
+        intros [= <- _]; now left.
+    + exact Hfwd.
+    + intros [= <- _]; now left.
   - intros [= <- _]; now left.
 Qed.
 
@@ -440,7 +546,7 @@ Proof.
     destruct (run cfg st1 t) as [[st2 os2]| | |] eqn:R; cbn [bind]; try discriminate.
     intros [= <- <-] H.
     destruct (IH _ _ _ _ R H) as [H1|(i & now & delay & E1 & E2 & E3)].
-    + destruct (step_log _ _ _ _ _ _ St H1) as [H0|(-> & now & delay & -> & E2)]; [now left|].
-      right. exists O, now, delay; cbn [nth_error]; auto.
+    + destruct (step_log _ _ _ _ _ _ St H1) as [H0|(Fw & now & delay & -> & E2)]; [now left|].
+      right. exists O, now, delay; cbn [nth_error]; eauto.
     + right. exists (S i), now, delay; cbn [nth_error]; auto.
 Qed.
